@@ -202,7 +202,7 @@ def _defect_class(case, ast, tape, rname, got, notes, d3, d4):
         cands.append("D4")
     if d3:
         cands.append("D3")
-    if got[0] == "compile-TSE" and "ws_between_spread_and_literal" in notes:
+    if "ws_between_spread_and_literal" in notes:  # usually a compile-time TSE, sometimes a mis-parse that fails later
         cands.append("D1")
     if not cands:
         return None
